@@ -207,6 +207,18 @@ Example c13_judge_example :
   end.
 Proof. vm_compute. split; [reflexivity|discriminate]. Qed.
 
+(* the anchor invariant is satisfiable (fresh writer), and ex_w of the example above satisfies NInv's
+   ingredients priors_ok / nb *)
+Example c13_invariant_nonvacuous :
+  match writer_new (repeat 0%N 64) 64 with
+  | Ok w0 => AInv (mkD w0 []) g0 L0
+  | _ => False
+  end.
+Proof.
+  destruct (writer_new (repeat 0%N 64) 64) as [w0| |] eqn:E; [|vm_compute in E; discriminate..].
+  eapply AInv_new; eauto.
+Qed.
+
 Print Assumptions c13_owner_pointer_valid.
 Print Assumptions c13_unhinted_pointer_valid.
 Print Assumptions c13_anchor_valid.
